@@ -10,7 +10,7 @@ import itertools
 import random
 import struct
 
-from vf.runner import Acc, Allowed, HarnessError, fingerprint, hyp_collect, hyp_shrink, innermost_frame, subseed
+from vf.runner import Acc, Allowed, CaseTimeout, HarnessError, time_limit, fingerprint, hyp_collect, hyp_shrink, innermost_frame, subseed
 
 ID = "C15"
 LEVEL = "exploration"
@@ -597,12 +597,24 @@ CHECKS = {
 }
 
 
+_TIMED_OUT = set()
+
+
 def apply(acc, codec, value, nontrivial=False, count=True):
     """Run one check, recording exceptions of the code under test as failures."""
+    if codec in _TIMED_OUT:
+        acc.exclude("skipped-after-timeout:%s" % codec)
+        return False
     try:
-        r = CHECKS[codec](value)
+        with time_limit(20):
+            r = CHECKS[codec](value)
     except HarnessError:
         raise
+    except CaseTimeout as e:
+        # every codec call here takes micro- to milliseconds; 20 s without an answer is non-termination
+        acc.fail(codec, "no-result-within-20s", str(e), {"codec": codec, "value": value}, innermost_frame(e))
+        _TIMED_OUT.add(codec)
+        return False
     except Exception as e:
         acc.fail(codec, type(e).__name__, "%s: %s" % (type(e).__name__, e), {"codec": codec, "value": value}, innermost_frame(e))
         return False
